@@ -91,3 +91,14 @@ package xstar
 //@   before select#1 assert selwaits(s.closeq)
 //@
 // ---- end generated wake-on-close contracts ----
+// ---- generated default contracts (tools/gen_default_contracts.py) ----
+//@ func NewProtocol
+//@   ensures cast("*socket", result).closed == false
+//@   ensures cast("*socket", result).closeq != nil && !closed(cast("*socket", result).closeq)
+//@   ensures cast("*socket", result).recvQLen == 128
+//@   ensures cast("*socket", result).sendQLen == 128
+//@   ensures cast("*socket", result).recvExpire == 0
+//@   ensures cast("*socket", result).recvq != nil && cap(cast("*socket", result).recvq) == cast("*socket", result).recvQLen
+//@   ensures cast("*socket", result).ttl == 8
+//@
+// ---- end generated default contracts ----
